@@ -62,7 +62,7 @@ PROPS = {
                 "== <=> bytes equal <=> model equal. Trivial: identity representatives." + DISTINCT,
         "rule_more": "plus uncompressed / alternate-format ({:#?}) encoders (a panic of an unimplemented mode is counted, bytes must be canonical), "
                      "and object-lifecycle programs: persistent Element / AffinePoint objects from 16 constructors, mutated in place, "
-                     "every encoder against encodeSpec of the object's actual coordinates, == objects must encode equally.",
+                     "every encoder against encodeSpec of the object's actual coordinates, == objects must encode equally. Encoding == Encoding must be byte equality (all single-bit neighbours, valid pairs differing in one high bit).",
         "text": "Reference-encoder monitor over every representation reachable by arithmetic or constructed through the hook.",
         "note": "trusted: BigUint encodeSpec (self-tested), coordinate hook.",
     },
@@ -100,7 +100,7 @@ PROPS = {
                 "scalar_mul(_vartime) with extra leading-zero limbs and the empty slice; r*P = identity for every zoo element; "
                 "additivity/multiplicativity laws; MSM forms at sizes 0..=100 (thorough: 1000). Trivial: identity operand or k = 0." + DISTINCT,
         "rule_more": "scalar zoo also holds recoding runs (window digits 2^(w-1)-1, 2^(w-1), 2^w-1 for w <= 8 in every limb) and ladder "
-                     "collisions ((k mod 2^j) = +-2^j mod r; prefixes c*r+delta), MSM through lazy / nested iterators.",
+                     "collisions ((k mod 2^j) = +-2^j mod r; prefixes c*r+delta), MSM through lazy / nested iterators. Mismatched-length MSM (prefix semantics, msm refuses), planted repeated points.",
         "text": "Reference-model monitor: the k-fold sum is computed independently by the integer k, so the group order is checked, "
                 "not assumed.",
         "note": "trusted: BigUint model (projective double-and-add validated against the affine law in the self-test).",
@@ -195,7 +195,7 @@ PROPS = {
                 "counted. Trivial: all operands in {0,1}." + DISTINCT,
         "rule_more": "zoo additions: divstep worst-case inputs (beam search: ~2.4*bits iterations), Montgomery extremes, limb-fold symmetric "
                      "values, recoding runs, decimal structure, modulus-limb sharing; resumable (non-fused) iterators; fold lists of "
-                     "length 31..1025 with extreme contents; from_base_prime_field_elems arity.",
+                     "length 31..1025 with extreme contents; from_base_prime_field_elems arity. Exponents k(p-1)+-1 with bases 0, +-1, 2 and 6..17-limb exponents; &mut operands must be left unchanged; 2-adic relations with p.",
         "text": "Reference-model monitor over the complete form catalogue; results are compared as canonical bytes.",
         "note": "trusted: num-bigint. Fq::SENTINEL and non-canonical from_montgomery_limbs inputs are outside the quantifier.",
     },
@@ -211,6 +211,7 @@ PROPS = {
                 "pairs differing in one limb; Hash consistent with ==; From<u8..u128,bool>; FromStr/Display; samplers in range. "
                 "Non-standard flag types (4, 8 bits: extra byte; 9 bits: refused); strings beyond 2048 bits, sparse long strings "
                 "with zero / k*p chunks, fold-collision aliases, fold-vanishing pairs for == / Ord / Hash. "
+                "Flag types of every width 1..8; Display under format specifications (precision, width, fill, sign). "
                 "Trivial: values 0/1, the empty string." + DISTINCT,
         "text": "Integer-model monitor over all conversions; the minimal build covers the inherent subset on the fiat backend.",
         "note": "FromStr is specified as digits -> integer mod p, anything else Err (ark-ff behaviour); Display of zero may be empty.",
@@ -230,7 +231,7 @@ PROPS = {
                 "double, 10 shared scalar forms and long-integer multiplication, each step logged as result encoding + identity/equality "
                 "bits. evaluations = lines compared; distinct_nontrivial = distinct transcript lines (measured by hashing) of one build.",
         "rule_more": "structured sections: all core-zoo pairs and Montgomery limb neighbours with cmp/eq/ne/hash lines, engineered square-root "
-                     "exponents, Elligator collisions, divstep worst-case inversions; the arkx / minx configurations are compared with ark too.",
+                     "exponents, Elligator collisions, divstep worst-case inversions; the arkx / minx configurations are compared with ark too. Also Zeroize, equality across coset members at Z = 1, sentinel comparisons.",
         "text": "Differential trace check between the two feature configurations over every operation both offer.",
         "note": "sqrt_ratio is logged as (was_square, y^2): the sign of y is not an observable both builds define under one name.",
     },
@@ -247,7 +248,7 @@ PROPS = {
                 "both start states on several elements: constraints may grow only at the first forcing of a missing form, values stay "
                 "equal to native, clone-free histories forcing the same forms end in identical matrices. No case is trivial." + DISTINCT,
         "rule_more": "scalar_mul_le with constant / witness bits mixed (head, tail, interleaved) and constant base points; near-valid rejects and "
-                     "special field values as encodings; arkx configuration in both tiers.",
+                     "special field values as encodings; arkx configuration in both tiers. Optimisation goal Constraints / Weight / None as a configuration; equality family on two constants.",
         "text": "Consistency monitor between circuit and native code; value() is read only on satisfied systems.",
         "note": "the native functions are themselves monitored by C01-C09; hints are honest here (adversarial hints: C14).",
         "timeout": {"quick": 1500, "thorough": 14400},
@@ -307,7 +308,7 @@ PROPS = {
                 "multi_pairing; random Fp12 elements: frobenius_map(0..11) of Fp12/Fp6/Fp2 components, mul, square, inverse, pow, "
                 "Fp2 sqrt/legendre. Trivial: zero scalars." + DISTINCT,
         "rule_more": "readers with partial progress; integer-zoo mul_bigint (q+-2, prefixes c*q+delta, recoding runs, long); hostile points "
-                     "related to a just-validated point, with a vanishing coordinate component; multi-pairing lists with identities.",
+                     "related to a just-validated point, with a vanishing coordinate component; multi-pairing lists with identities. Cosets of the subgroup by small-order points; wide scalars on non-members.",
         "text": "Differential monitor against the object the property names (the reference engine is already a dependency of /repo).",
         "note": "trusted: ark-bls12-377 / ark-ec generic code.",
     },
